@@ -145,6 +145,21 @@ pub fn tags_for(c: &XCase, imp: &str) -> Vec<&'static str> {
 pub fn run_prop(ctx: &Ctx, sink: &mut Sink) {
     let mut rng = Rng::new(ctx.seed).fork(4);
     let (nhook, nbin) = if ctx.thorough { (400_000, 6_000) } else { (20_000, 300) };
+    // (thorough tier only: the byte-level model reads a 128 KiB argument in about a minute; the quick tier leaves
+    //  this boundary to C06, whose model works on lengths)
+    for big in if ctx.thorough { vec![131_071usize, 131_072] } else { vec![] } {
+        for opts in [vec!["n1".to_string()]] {
+            let mut input = b"a\n".to_vec();
+            input.extend(std::iter::repeat(b'x').take(big));
+            input.extend_from_slice(b"\nb\n");
+            let c = XCase { opts, cmd: vec![b"cmd".to_vec()], input, script: vec![], want_sys: 0 };
+            let (req, imp) = run_inproc(ctx, &c);
+            let mut tags = tags_for(&c, &imp);
+            tags.push("per-argument-limit");
+            tags.push("nt");
+            sink.push(Case { req, imp, tags });
+        }
+    }
     for _ in 0..nhook {
         let c = gen_case(&mut rng);
         let (req, imp) = run_inproc(ctx, &c);
